@@ -149,8 +149,10 @@ func (c *Check) updateFraming(ruleS, ruleG string) {
 					op, xx, yy, isCmp := cmpOf(h)
 					ok = false
 					if isCmp && op == "<" {
-						if cv, isC := xx.IsConst(); isC && cv == 0 && yy.Op == "len" {
-							ok, d = sliceIs(st, yy.Args[0], b, hi, nil)
+						// x < y  with  y - x == len(body) - (4+W+P)
+						diff := st.linOf(yy).add(st.linOf(xx), -1).add(st.linOf(mkLen(b)).add(hi, -1), -1)
+						if cv, isC := diff.isConst(); isC && cv == 0 {
+							ok = true
 						}
 					}
 					if !ok && d == "" {
@@ -558,26 +560,30 @@ func (c *Check) bitmapAgreement(rule string) {
 		}
 	}
 	a.Run()
-	// isSet: returns  a[idx] & mask != 0
-	var gIdx, gMask *Expr
+	// isSet: any boolean term over the loaded word a[idx] and b; its meaning is
+	// decided below by evaluating it with the word bound to test values
+	var gIdx, gWord, gRet *Expr
 	var gState *State
 	g := NewAnalysis(p, isSetFn)
 	g.Run()
 	for _, r := range g.Returns {
-		e := r.Results[0]
-		if e.Op == "bin" && e.binOp() == "!=" && len(e.Args) == 2 {
-			for k := 0; k < 2; k++ {
-				if z, isC := e.Args[k].IsConst(); isC && z == 0 {
-					gIdx, gMask = split(e.Args[1-k], "&")
-					gState = r.State
-				}
+		gRet, gState = r.Results[0], r.State
+		var find func(e *Expr)
+		find = func(e *Expr) {
+			if e == nil || gWord != nil {
+				return
+			}
+			if e.Op == "ld" && len(e.Args) == 1 && e.Args[0].Op == "ia" {
+				gWord, gIdx = e, e.Args[0].Args[1]
+				return
+			}
+			for _, x := range e.Args {
+				find(x)
 			}
 		}
+		find(gRet)
 	}
-	if sIdx == nil || gIdx == nil || len(storeSites) != 1 || len(g.Returns) != 1 || len(a.Undecided)+len(g.Undecided) > 0 {
-		c.fail(rule, "attrsBitmap", "set/isSet shape", p.Pos(setFn.Pos()), fmt.Sprintf("expected set: a[i] |= m (one store) and isSet: a[i]&m != 0; set=(%v,%v) isSet=(%v,%v)", sIdx, sMask, gIdx, gMask))
-		return
-	}
+	_ = gWord
 	// decide over the whole domain of the uint8 argument by folding the terms
 	sb, gb := paramExpr(setFn, 1), paramExpr(isSetFn, 1)
 	eval := func(st *State, e, param *Expr, v int64) (int64, bool) {
@@ -587,18 +593,35 @@ func (c *Check) bitmapAgreement(rule string) {
 	}
 	seen := map[[2]int64]int64{}
 	folded, ok, detail := true, true, ""
-	for b := int64(0); b < 256 && ok; b++ {
+	allOnes := int64(1)<<uint(bits) - 1
+	if bits >= 63 {
+		folded = false
+	}
+	evalRet := func(b, word int64) (int64, bool) {
+		t := gState.clone()
+		t.rng[gb.Key] = isConst(b)
+		t.rng[gWord.Key] = isConst(word)
+		return t.evalBool(gRet).IsConst()
+	}
+	for b := int64(0); b < 256 && ok && folded; b++ {
 		si, ok1 := eval(sState, sIdx, sb, b)
 		sm, ok2 := eval(sState, sMask, sb, b)
 		gi, ok3 := eval(gState, gIdx, gb, b)
-		gm, ok4 := eval(gState, gMask, gb, b)
-		if !(ok1 && ok2 && ok3 && ok4) {
+		if !(ok1 && ok2 && ok3) {
+			folded = false
+			break
+		}
+		hit, ok4 := evalRet(b, sm)          // only b's bit set in the word
+		miss, ok5 := evalRet(b, allOnes^sm) // every other bit set
+		if !(ok4 && ok5) {
 			folded = false
 			break
 		}
 		switch {
-		case si != gi || sm != gm:
-			ok, detail = false, fmt.Sprintf("code %d: set touches word %d mask %#x but isSet reads word %d mask %#x", b, si, sm, gi, gm)
+		case si != gi:
+			ok, detail = false, fmt.Sprintf("code %d: set touches word %d but isSet reads word %d", b, si, gi)
+		case hit != 1 || miss != 0:
+			ok, detail = false, fmt.Sprintf("code %d: set sets mask %#x of word %d, but isSet reports %d for that word and %d for its complement", b, sm, si, hit, miss)
 		case si < 0 || si >= nWords:
 			ok, detail = false, fmt.Sprintf("code %d: word index %d outside [0,%d)", b, si, nWords)
 		case sm <= 0 || sm&(sm-1) != 0:
@@ -614,8 +637,8 @@ func (c *Check) bitmapAgreement(rule string) {
 		// terms too wide to fold (64-bit words): fall back to identical
 		// canonical terms of the canonical shape b/W, 1<<(b%W)
 		norm := func(e *Expr, from, to *Expr) string { return strings.ReplaceAll(e.Key, from.Key, to.Key) }
-		same := norm(sIdx, sb, gb) == gIdx.Key && norm(sMask, sb, gb) == gMask.Key
-		shape := strings.Contains(gIdx.Key, fmt.Sprintf("const:%d", bits)) && strings.Contains(gMask.Key, fmt.Sprintf("const:%d", bits)) && nWords*bits >= 256
+		same := norm(sIdx, sb, gb) == gIdx.Key && strings.Contains(gRet.Key, norm(sMask, sb, gb))
+		shape := strings.Contains(gIdx.Key, fmt.Sprintf("const:%d", bits)) && strings.Contains(gRet.Key, fmt.Sprintf("const:%d", bits)) && nWords*bits >= 256
 		ok = same && shape
 		detail = fmt.Sprintf("terms not foldable; identical terms=%v canonical shape=%v", same, shape)
 	}
